@@ -115,19 +115,19 @@ pub fn eval(p: &Parameters, q: &[f64; 6]) -> Vec<(String, String)> {
 fn joint_axes(ctx: &Ctx) -> [Vec<f64>; 6] {
     if ctx.quick() {
         [
-            vec![0.0, 0.7, -2.1, 7.0 * PI],
-            vec![0.0, -0.9, 1.3],
-            vec![0.0, 0.8, -1.9],
-            vec![0.0, 1.1, -3.0, 1e3],
-            vec![0.0, 0.6, -1.2, PI],
-            vec![0.0, 2.5, -7.0 * PI],
-        ]
-    } else {
-        [
             vec![0.0, 0.7, -2.1, 7.0 * PI, PI, -1e3],
             vec![0.0, -0.9, 1.3, PI / 2.0, -7.0 * PI],
             vec![0.0, 0.8, -1.9, -PI / 2.0, 1e3],
             vec![0.0, 1.1, -3.0, 1e3, PI],
+            vec![0.0, 0.6, -1.2, PI, -7.0 * PI, 1e-9],
+            vec![0.0, 2.5, -7.0 * PI, 1e3],
+        ]
+    } else {
+        [
+            vec![0.0, 0.7, -2.1, 7.0 * PI, PI, -1e3, 0.1, -0.4],
+            vec![0.0, -0.9, 1.3, PI / 2.0, -7.0 * PI, 2.2],
+            vec![0.0, 0.8, -1.9, -PI / 2.0, 1e3, 3.0],
+            vec![0.0, 1.1, -3.0, 1e3, PI, -0.2],
             vec![0.0, 0.6, -1.2, PI, -7.0 * PI, 1e-9],
             vec![0.0, 2.5, -7.0 * PI, 1e3],
         ]
